@@ -39,6 +39,7 @@ ObjAt(H, op) == Nav(H, args[op.arg], op.path)
 OpValid(H, op) ==
   LET o == ObjAt(H, op) IN
   CASE op.o = "setval"    -> o > 0 /\ IsVar(H[o])
+    [] op.o = "setmeta"   -> o > 0 /\ IsVar(H[o])
     [] op.o = "setstatic" -> o > 0 /\ IsGraph(H[o]) /\ H[o].s[op.slot] \in {0, -1}
     [] op.o = "addmod"    -> o > 0 /\ IsGraph(H[o]) /\ H[o].s[op.slot] = 0 /\ Len(H) < N + 2
     [] op.o = "addvar"    -> o > 0 /\ IsGraph(H[o]) /\ H[o].s[op.slot] = 0 /\ Len(H) < N + 2
@@ -47,6 +48,7 @@ OpValid(H, op) ==
 ApplyOp(H, op) ==
   LET o == ObjAt(H, op) IN
   CASE op.o = "setval"    -> [H EXCEPT ![o].val = @ + 1]
+    [] op.o = "setmeta"   -> [H EXCEPT ![o].meta = 1 - @]      \* the function edits a metadata attribute of the Variable
     [] op.o = "setstatic" -> [H EXCEPT ![o].s[op.slot] = -1]
     [] op.o = "addmod"    -> Append([H EXCEPT ![o].s[op.slot] = Len(H) + 1], Obj("B", 0, 0, 0, 0))
     [] op.o = "addvar"    -> Append([H EXCEPT ![o].s[op.slot] = Len(H) + 1], Obj("P", 0, 0, 5, 0))
@@ -68,6 +70,7 @@ Structural(H, sc) == /\ ScriptValid(H, sc, 1)
                      /\ LET H2 == ApplyScript(H, sc, 1) IN
                         \/ ReachArgs(H2) # ReachArgs(H)
                         \/ \E i \in ReachArgs(H) : H2[i].s # H[i].s
+                        \/ \E i \in ReachArgs(H) : IsVar(H[i]) /\ H2[i].meta # H[i].meta      \* metadata is part of the graph definition
 Restricted(k) == k \in {"cond", "switch", "while", "fori"}
 Loops(k) == k \in {"while", "fori"}
 
@@ -106,7 +109,7 @@ AddOp(op) == /\ phase = "script" /\ Len(script) < MaxScript
              /\ UNCHANGED <<heap, phase, nedits, nops, h, args, kind, eh, ncalls, trip, ret, nflips>>
 ScriptOps ==
   LET cur == ApplyScript(heap, script, 1) IN
-  {[o |-> "setval", arg |-> a.arg, path |-> a.path, slot |-> 0, arg2 |-> 1, path2 |-> <<>>] : a \in {x \in Addr(cur) : IsVar(cur[x.id])}}
+  {[o |-> k, arg |-> a.arg, path |-> a.path, slot |-> 0, arg2 |-> 1, path2 |-> <<>>] : k \in {"setval", "setmeta"}, a \in {x \in Addr(cur) : IsVar(cur[x.id])}}
   \cup {[o |-> k, arg |-> a.arg, path |-> a.path, slot |-> s, arg2 |-> 1, path2 |-> <<>>] :
           k \in {"setstatic", "addmod", "addvar", "delattr"}, a \in {x \in Addr(cur) : IsGraph(cur[x.id])}, s \in 1..2}
   \cup {[o |-> "rebind", arg |-> a.arg, path |-> a.path, slot |-> s, arg2 |-> b.arg, path2 |-> b.path] :
